@@ -123,9 +123,25 @@ def run(ctx):
     for kind in ("el", "iso", "ion", "alias", "isoion"):
         pool = uni[kind]
         for a in (pool if not quick else rng.sample(pool, min(len(pool), 600))):
-            cnt = rng.choice(["", "2", "0.5"])
+            cnt = rng.choice(["", "2", "0.5"] + (["9007199254740993", "100000000000000001", "602214076000000000000001"] if rng.random() < 0.1 else []))
             s = a.render(rng) + cnt
             items.append((s, "public", "valid", {a.key(): Fraction(cnt) if cnt else Fraction(1)}, {"dens": "", "atoms": [a], "single": True}))
+    # a private table T2 whose owner redefined the valid charges (Fe: 2, 3 only; Ne: 1; Na: -1, 2): "the table" is what it
+    # defines now.  Each string is asked on T2 and, with the opposite expectation, on the untouched tables.
+    F = Fraction
+    custom = [("Fe{6+}O3", {(26, 0, 6): F(1), (8, 0, 0): F(3)}, False), ("Fe[56]{6+}", {(26, 56, 6): F(1)}, False),
+              ("Fe{3+}2O3", {(26, 0, 3): F(2), (8, 0, 0): F(3)}, True), ("Ne{+}2", {(10, 0, 1): F(2)}, True),
+              ("Ne[20]{+}", {(10, 20, 1): F(1)}, True), ("Na{2+}O", {(11, 0, 2): F(1), (8, 0, 0): F(1)}, True),
+              ("Na{+}Cl{-}", {(11, 0, 1): F(1), (17, 0, -1): F(1)}, False), ("Na[23]{+}", {(11, 23, 1): F(1)}, False),
+              ("Fe{-}", {(26, 0, -1): F(1)}, False)]
+    for rep in range(3):            # (repeated: the answer must not depend on what was asked before)
+        for s, exp, on_t2 in custom:
+            for T in ("T2", "public", "T1"):
+                ok = on_t2 if T == "T2" else (not on_t2 or s == "Fe{3+}2O3")
+                if ok:
+                    items.append((s, T, "valid", exp, {"dens": "", "atoms": []}))
+                else:
+                    items.append((s, T, "mal:charge-not-defined-by-this-table", None, {}))
     # ---- execute
     nb = 32
     batches = [items[i::nb] for i in range(nb)]
@@ -163,7 +179,10 @@ def run(ctx):
 
 
 EDIT_TOKENS = ["(", ")", "[", "]", "{", "}", "+", " ", "2", "0", "10", "0.5", ".", "1.", "[2]", "[18]", "[056]", "{2+}", "{-}", "{+}", "{3}", "{+2}",
-               "H", "O", "Fe", "Co", "D", "T", "Xx", "Q", "x", "q", "#", "!", "=", ",", "_", "@", "@2", "@1.5n", "@n", "@0", "-", "e3", "{0+}", "[]", "{}"]
+               "H", "O", "Fe", "Co", "D", "T", "Xx", "Q", "x", "q", "#", "!", "=", ",", "_", "@", "@2", "@1.5n", "@n", "@0", "-", "e3", "{0+}", "[]", "{}",
+               # digits that are not ASCII are never part of a number of the grammar (non-ASCII blanks are left out: the
+               # documentation does not say which characters are a space)
+               "\uff12", "\u0668", "\u0665", "\uff16", "\u00b2", "\u2082"]
 
 
 def edits(rng, s, n):
@@ -249,7 +268,8 @@ def check_valid(ctx, s, T, exp, meta, got):
     if set(g) != set(exp):
         return bad("AtomsAreDenotation", got=dict(("%d-%d-%d" % k, v) for k, v in g.items()))
     for k, v in exp.items():
-        if not close(g[k], float(v)):
+        exact = v.denominator == 1 and isinstance(g[k], int)      # whole-number counts are whole numbers, whatever their size
+        if (g[k] != v.numerator) if exact else not close(g[k], float(v)):
             return bad("CountsAreDenotation", got=dict(("%d-%d-%d" % k2, v2) for k2, v2 in g.items()))
     charge = sum(float(v) * k[2] for k, v in exp.items())
     if "charge" not in got or abs(got["charge"] - charge) > 1e-9 * max(1, abs(charge)):
